@@ -3,7 +3,7 @@
 (* every line up to a length over representatives of the layout and direction    *)
 (* classes, under every setting of order / textdirection / linelimit, with the    *)
 (* expected arrays; plus validation of width-class dumps (MODE=cps).               *)
-EXTENDS Layout, Json, IOUtils
+EXTENDS Bidi, Json, IOUtils
 VARIABLE dummy
 Env(k, d) == IF k \in DOMAIN IOEnv THEN IOEnv[k] ELSE d
 EnvN(k, d) == IF k \in DOMAIN IOEnv THEN atoi(IOEnv[k]) ELSE d
@@ -27,13 +27,15 @@ Case(line0, order, td, lim) ==
         n    == Len(line)
         ctx  == Ctx(line, td)
         marks == HasMarkChar(line)
-        vis  == Reorder(line, ctx)
+        (* lines with mark characters: the operational definition (Bidi!ReorderOp); without: the declarative one, and both agree *)
+        vis  == IF marks THEN ReorderOp(line, ctx) ELSE Reorder(line, ctx)
         reo  == Reorders(line, order, lim)
         p    == Position(line, IF reo THEN vis ELSE Ident(n))
         wid  == p[n + 1]
     IN [line |-> line, order |-> order, td |-> td, lim |-> lim, ctx |-> ctx, marks |-> IF marks THEN 1 ELSE 0,
         vis |-> vis, perm |-> IF IsPerm(vis) /\ vis[n] = n - 1 THEN 1 ELSE 0,
         ident |-> IF (\A i \in 1..n - 1 : ~Edge(line[i], ctx)) => vis = Ident(n) THEN 1 ELSE 0,
+        agree |-> IF ReorderAgrees(line, ctx) THEN 1 ELSE 0,
         reo |-> IF reo THEN 1 ELSE 0,
         pos |-> p,
         thm |-> IF Tiling(line, IF reo THEN vis ELSE Ident(n), p) /\ RoundTrip(line, p) THEN 1 ELSE 0,
@@ -73,7 +75,10 @@ ConcatAll(ss) == IF ss = <<>> THEN <<>> ELSE Head(ss) \o ConcatAll(Tail(ss))
 Dump == IF Mode = "cps" THEN ndJsonDeserialize(Env("IN", "")) ELSE <<>>
 BadWid == SelectSeq(Dump, LAMBDA r : ~(/\ r.wid = UcWid(r.cp) /\ r.bell = (IF IsBell(r.cp) THEN 1 ELSE 0)
                                        /\ r.comb = (IF r.cp > 127 /\ IsComb(r.cp) THEN 1 ELSE 0)))
-Table == IF Mode = "cps" THEN <<[checked |-> Len(Dump), tables_ok |-> IF TablesOK THEN 1 ELSE 0, bad |-> BadWid]>>
+MarkLines == IF Mode = "marklist" THEN ndJsonDeserialize(Env("IDXFILE", "")) ELSE <<>>
+Table == IF Mode = "marklist" THEN ConcatAll([k \in 1..Len(MarkLines) |-> [j \in 1..NOPT |->
+                  LET o == OptsOf(k, j) IN Case(MarkLines[k], o[1], o[2], o[3])]])
+         ELSE IF Mode = "cps" THEN <<[checked |-> Len(Dump), tables_ok |-> IF TablesOK THEN 1 ELSE 0, bad |-> BadWid]>>
          ELSE IF Mode = "shape" THEN ShapeCases
          ELSE ConcatAll([k \in 1..(Hi - Lo) |-> [j \in 1..NOPT |->
                   LET o == OptsOf(Lo + k - 1, j) IN Case(LineOf(Lo + k - 1), o[1], o[2], o[3])]])
